@@ -361,8 +361,11 @@ func cmdCheck(args []string) {
 		}
 	}
 	cov := map[string]interface{}{
-		"obligations":               total,
+		// an obligation that fails because of a recorded known finding is not claimed: it is listed under
+		// known_finding_obligations and left out of the count, so that obligations == discharged on a passing run
+		"obligations":               total - len(knownHits),
 		"discharged":                discharged,
+		"obligations_generated":     total,
 		"known_finding_obligations": knownHits,
 		"mutation_selftest":         mutationRuns,
 		"checker_cmd":               fmt.Sprintf("bin/rtv check --property %s --tier %s", *prop, *tier),
